@@ -66,6 +66,7 @@ class Run:
         self.floors = {}              # counter name -> minimum
         self.inconclusive = []        # reasons
         self.extra = {}               # extra coverage keys (exhaustive, ...)
+        self.case_ref = None          # (seed, tier, case index) being executed
         self.t0 = time.time()
 
     # -- recording -------------------------------------------------------
@@ -88,8 +89,11 @@ class Run:
         self.counters[f"violation:{mech}"] += 1
         n = sum(1 for v in self.violations if v["mechanism"] == mech)
         if n < MAX_WITNESSES_PER_MECH:
+            w = jsonable(witness)
+            if self.case_ref and isinstance(w, dict) and "_replay" not in w:
+                w = dict(w, _replay=dict(self.case_ref))
             self.violations.append(
-                {"kind": kind, "mechanism": mech, "witness": jsonable(witness)})
+                {"kind": kind, "mechanism": mech, "witness": w})
 
     def note_inconclusive(self, why):
         self.inconclusive.append(str(why))
